@@ -18,4 +18,8 @@ theorem widths_as_modelled : listtblWidths = [("obj_hash", 4), ("obj_size", 8), 
     arguments (and the container) only, also when several threads are inside at once -/
 theorem no_hidden_static_state : listtblStatics = [] := by decide
 
+/-- the assert() calls of this family, as reviewed: comparisons of fields only - nothing is lost when the
+    release build (-DNDEBUG) drops them; a new or changed assert() has to be reviewed here -/
+theorem asserts_side_effect_free : listtblAsserts = [] := by decide
+
 end Qlibc.Shapes.Listtbl
